@@ -26,7 +26,7 @@ FS_CONSTS = [
 ]
 
 KLASS_IDS = {"RootOp": 1, "RenameSelf": 2, "RenameFileAny": 3, "RenameDir": 4, "StaleHandle": 5,
-             "Recreate": 6}
+             "RecreateAny": 6}
 
 KNOWN_IDS = {"RootOp": 1, "RenameSelf": 2, "RenameDir": 4, "StaleHandle": 5, "Recreate": 6, "RenameFile": 7,
              "RenameCrossDir": 8, "KindSwap": 9}
@@ -98,7 +98,7 @@ class Spec(PropSpec):
     ]
     partial_note = ("c10_refines_partial covers every operation except create_dir_all / remove_dir_all and successful renames of "
                     "regular files (correspondence + oracle only; the oracle asserts the renames of data-synced files that are "
-                    "left alone until the rename is flushed); it holds outside the classes RenameFile, RenameSelf, RenameDir, StaleHandle, Recreate, "
+                    "left alone until the rename is flushed); it holds outside the classes RenameFile, RenameSelf, RenameDir, StaleHandle, Recreate (for the theorem: any creation of a file at a name a file left since the last crash; the known finding Recreate is narrower and the oracle asserts the re-creations outside it), "
                     "RootOp, each of which has a _refuted theorem with a witness replayed on the crate")
 
     def gen_cases(self, ctx):
@@ -123,6 +123,9 @@ class Spec(PropSpec):
         # renames of files whose data is synced and that are left alone until the rename is flushed
         # (outside every known class; asserted by the oracle, not covered by c10_refines_partial)
         cases += [F.gen_clean_rename(rng, syncs=0.25, setup_sync=rng.choice([0, 1, 2])) for _ in range(120 * k)]
+        # an entry removed and created again at the same path (outside the narrow class Recreate)
+        rc = F.recreate_scenarios(rng, crash=False)
+        cases += rc if not q else rng.sample(rc, 100)
         # two hosts of a real turmoil::Sim with identical path names (per-host Fs entered by the Sim)
         for _ in range(40 * k):
             c = F.gen_safe(rng, stale=0.0, nhosts=2)
